@@ -544,6 +544,9 @@ def run_task(args):
         if mutant:
             E.FEAS_TIMEOUT = 800       # controls only need one refuted obligation; undecided feasibility explores both sides anyway
         C = mod.contract(cname)
+        if hasattr(C, 'use_contracts'):
+            # this contract is proved against its own set of callee contracts (e.g. a callee inlined elsewhere in the module)
+            E.contracts = {c_.qual: c_ for c_ in C.use_contracts()}
         if C.func is None:
             obs, npaths = C.lemmas(E, cfg, prop), 0
         else:
